@@ -97,6 +97,19 @@ def replay(case):
                         sol = ode.hod(A, x0, steps[0], len(steps), order=2 * cfg['m'] - (1 if len(steps) == 1 else 0),
                                       previous_value=prev if with_prev else None,
                                       threshold=0, max_rank=200, normalize=0, progress=False)
+                    if sch == 'hod' and not normalize:
+                        # the precomputed scheme operator 2 sum_j h^(2j-1)/(2j-1)! A^(2j-1) handed over by the caller
+                        import math
+                        hh, mm = steps[0], cfg['m']
+                        term, ophod = A, (2 * hh) * A
+                        for j in range(2, mm + 1):
+                            term = term @ A @ A
+                            ophod = ophod + (2 * hh ** (2 * j - 1) / math.factorial(2 * j - 1)) * term
+                        sol2 = ode.hod(A, x0, hh, len(steps), order=2 * mm, previous_value=prev if with_prev else None, op_hod=ophod,
+                                       threshold=0, max_rank=200, normalize=0, progress=False)
+                        res2 = check_trajectory(sol2, x0, Ad, steps, sch, P, isl, normalize, with_prev, prev, dims)
+                        for sig, msg in res2:
+                            out.append(('%s:op_hod:%s:%s' % (tag, sig, kind), '%s (op_hod passed; dims %r, order %d)' % (msg, dims, 2 * mm)))
                     res = check_trajectory(sol, x0, Ad, steps, sch, P, isl, normalize, with_prev, prev, dims)
                     for sig, msg in res:
                         out.append(('%s:%s:%s' % (tag, sig, kind), '%s (dims %r, steps 2^-%r, normalize=%d)' % (msg, dims, cfg['steps'], normalize)))
